@@ -76,6 +76,15 @@ def cb_instances(tier):
     # Hermitian and TRACELESS Choi matrix whose output partial trace does not vanish: a non-unital CP map minus its dual
     JA = choi_of([np.array([[1, 0], [0, 0.5]]), np.array([[0, 0.5j], [0, 0]])])
     fam.append(("non-unital CP map minus its dual (traceless, Tr_out J != 0)", JA - dual_of(JA, 2)))
+    # maps whose cb trace norm DIFFERS from that of their dual (every map above is of the form A X B^dagger or (anti)symmetric under
+    # the dual, where the two coincide - tracing out the wrong tensor factor went unnoticed on them): dephasing minus reset-to-|0>
+    # has diamond norm 2 and its dual 1; a generic two-term map with different left and right operators
+    e2 = np.eye(2)
+    reset = [np.outer(e2[0], e2[0]), np.outer(e2[0], e2[1])]
+    deph = [np.diag([1.0, 0.0]), np.diag([0.0, 1.0])]
+    fam.append(("dephasing minus reset-to-|0> (cb trace norm 2, dual 1)", choi_of(deph) - choi_of(reset)))
+    fam.append(("two-term general map, norm differs from the dual's",
+                choi_of([np.array([[1, 0.5], [0, 1j]]), np.array([[0, 0], [1, 0.5]])], [np.array([[0.5, 0], [1, 1]]), np.array([[1, 1j], [0, 0]])])))
     if tier == "thorough":
         S = np.roll(np.eye(3), 1, axis=0)
         fam.append(("qutrit id - shift", choi_of([np.eye(3)]) - choi_of([S])))
